@@ -350,8 +350,13 @@ fn children(case: &Case, parent: &Job, n_dgrams: usize, baseline: usize) -> Vec<
 }
 
 fn master(property: &str, out_path: &str) {
-    if property != "C20" {
-        eprintln!("dcmc: serves C20 only (asked for {})", property);
+    // C20 runs every family; C18 (only authenticated packets are acted upon) runs the garble family
+    if property == "C18" {
+        if std::env::var("DCMC_FAMILIES").is_err() {
+            std::env::set_var("DCMC_FAMILIES", "garble"); // inherited by the worker processes
+        }
+    } else if property != "C20" {
+        eprintln!("dcmc: serves C20 and C18 only (asked for {})", property);
         std::process::exit(2);
     }
     let tier = Tier::from_env();
